@@ -5,7 +5,7 @@ V = os.path.dirname(os.path.dirname(os.path.abspath(__file__)))
 sys.path.insert(0, os.path.join(V, 'props')); sys.path.insert(0, os.path.join(V, 'lib'))
 props = json.loads('[' + ','.join(l for l in open(os.path.join(V, 'properties.jsonl')) if l.strip()) + ']')
 # properties whose check has been integrated and validated on the unchanged tree by the coordinator
-CLAIMED = ['C01', 'C02', 'C03', 'C04', 'C05', 'C06', 'C07', 'C08', 'C09', 'C10', 'C11', 'C12', 'C13', 'C14', 'C15', 'C16', 'C17', 'C19', 'C20']
+CLAIMED = ['C01', 'C02', 'C03', 'C04', 'C05', 'C06', 'C07', 'C08', 'C09', 'C10', 'C11', 'C12', 'C13', 'C14', 'C15', 'C16', 'C17', 'C18', 'C19', 'C20']
 checks, na = [], []
 for p in props:
     pid = p['id']
